@@ -889,9 +889,12 @@ impl<'t> Gen<'t> {
             // one reference key in six is named like a plural form of a sibling key (`title_one` next to `title`)
             // without being a plural (no `_other` companion): it is an ordinary key
             if self.t.chance(1, 6) {
+                // the sibling must not be a plural in any locale (a locale may use another kind for the same key):
+                // its forms would be written under the very name chosen here
+                let plural_somewhere = |k: &str| p.files.iter().any(|((n, _), o)| *n == ns && o.iter().any(|(kk, v)| kk == k && matches!(v, Value::Plural(_))));
                 let siblings: Vec<String> = p
                     .file(ns.as_deref(), p.default_locale())
-                    .map(|o| o.iter().filter(|(_, v)| !matches!(v, Value::Plural(_))).map(|(k, _)| k.clone()).collect())
+                    .map(|o| o.iter().filter(|(k, _)| !plural_somewhere(k)).map(|(k, _)| k.clone()).collect())
                     .unwrap_or_default();
                 if !siblings.is_empty() {
                     let sib = siblings[self.t.pick(siblings.len())].clone();
